@@ -47,13 +47,11 @@ Hypothesis Ha : arch_ok a.
 Hypothesis Hskip : 0 <= scan_skip_words a /\ a_scan_skip a = a_pw a * scan_skip_words a.
 Hypothesis Hcfisp : In (a_cfi_sp_name a) (alias_group a (a_sp_name a)).
 Hypothesis Hn_sp : reg_valid a (a_sp_name a) (plain_valid a) = true.
+Hypothesis Hn_csp : reg_valid a (a_cfi_sp_name a) (plain_valid a) = true.
 (* the frame-pointer technique gives up on a frame pointer of 0: ARM follows frame pointers on iOS only (there a
    valid fp of 0 is the technique's own end-of-chain marker and ends the walk); ARM64 rejects the pc it reads *)
 Hypothesis Hfp_arm : a_fp a = FpArm -> (os =? OS_IOS) = false.
 Hypothesis Hfp_arm64 : a_fp a = FpArm64 -> a_canon_fp a 0 = false.
-(* the symbol-file oracle answers like the correct one on the frames this walk produces *)
-Hypothesis Hagree : forall callee gc fwd, r_fp (f_regs callee) = 0 -> r_lr (f_regs callee) = 0 ->
-  cfi_walk callee gc fwd = mix_cfi_correct a base all callee gc fwd.
 Hypothesis Hwf : mix_wf_layout a instr_valid module_at base ip0 all = true.
 
 Notation mem := (mk_mem a base (mix_words all)).
@@ -266,7 +264,19 @@ Qed.
 
 Definition rstate (callee : frame) (done : list mspec) : Prop :=
   r_sp (f_regs callee) = base + a_pw a * mix_total done /\ r_fp (f_regs callee) = 0 /\ r_lr (f_regs callee) = 0 /\
-  reg_valid a (a_sp_name a) (f_valid callee) = true.
+  reg_valid a (a_sp_name a) (f_valid callee) = true /\ reg_valid a (a_cfi_sp_name a) (f_valid callee) = true /\
+  f_instr callee = prev_instr a ip0 done.
+
+(* the symbol-file oracle answers like the correct one on the frames this walk reaches: the callee of the record after
+   [done] has its sp at that record, fp = lr = 0, a valid sp, and the lookup address of its position *)
+Hypothesis Hagree : forall done f t callee gc fwd, all = done ++ f :: t -> rstate callee done ->
+  cfi_walk callee gc fwd = mix_cfi_correct a base all callee gc fwd.
+
+Lemma prev_instr_snoc : forall done instr f, prev_instr a instr (done ++ [f]) = ms_ra f - a_adj a.
+Proof. induction done as [|x d IH]; intros; cbn [app prev_instr]; [reflexivity|apply IH]. Qed.
+
+Lemma csp_cfi_valid : forall l, reg_valid a (a_cfi_sp_name a) (VSome (l ++ [a_cfi_sp_name a; a_cfi_ip_name a])) = true.
+Proof. intros l. unfold reg_valid, alias_group. cbn [existsb]. rewrite memb_last2. reflexivity. Qed.
 
 Lemma mix_chain_walk : forall fs done callee gc fuel,
   all = done ++ fs ->
@@ -280,7 +290,7 @@ Proof.
   destruct mwf_parts as [Hgall [Hjunk [Hb0 Htop]]].
   pose proof m_mem_len as Hml. destruct Hskip as [Hsk0 Hskeq].
   pose proof Ha as Ha'. destruct Ha' as [_ [_ [_ [_ [_ [_ [_ [_ [_ [Hadj Hle]]]]]]]]]].
-  induction fs as [|f t IH]; intros done callee gc fuel Hall [Hsp [Hfp [Hlr Hvsp]]] Hg Hctx Hfuel;
+  induction fs as [|f t IH]; intros done callee gc fuel Hall Hrs Hg Hctx Hfuel; pose proof Hrs as [Hsp [Hfp [Hlr [Hvsp [Hvcsp Hinstr]]]]];
     (destruct fuel as [|k]; [cbn in Hfuel; lia|]); cbn [walk].
   - assert (Enc : is_context (f_trust callee) = false).
     { destruct (is_context (f_trust callee)); [exfalso; apply Hctx; reflexivity | reflexivity]. }
@@ -334,7 +344,7 @@ Proof.
       assert (Ecfi : by_cfi a module_at max_module_addr cfi_walk callee gc =
                      Some ({| r_ip := ms_ra f; r_sp := sp'; r_fp := 0; r_lr := 0; r_gp := r_gp (f_regs callee) |}, v')).
       { unfold by_cfi. rewrite Hvsp. cbn [negb]. destruct (module_at (f_instr callee)); [|contradiction].
-        rewrite (Hagree callee gc _ Hfp Hlr). unfold mix_cfi_correct. rewrite Elook.
+        rewrite (Hagree done f t callee gc _ Hall Hrs). unfold mix_cfi_correct. rewrite Elook.
         unfold cfi_post. cbn [r_ip r_sp r_fp r_lr r_gp]. rewrite Hfp, Hlr, Estrip, Estrip0. fold v'.
         destruct (reg_valid a (a_fp_name a) (VSome v')); destruct (reg_valid a (a_lr_name a) (VSome v')); reflexivity. }
       unfold get_caller_frame, cascade. rewrite Ecfi. cbn [obind from_context f_regs r_ip r_sp].
@@ -347,9 +357,11 @@ Proof.
       * cbn [obind mix_chain set_instr from_context f_valid f_regs r_gp]. rewrite Etech. reflexivity.
       * reflexivity.
       * reflexivity.
-      * unfold rstate. cbn [set_instr from_context f_regs f_valid r_sp r_fp r_lr]. repeat split.
+      * unfold rstate. cbn [set_instr from_context f_regs f_valid f_instr r_sp r_fp r_lr]. repeat split.
         -- unfold sp'. rewrite mix_total_app. cbn [mix_total]. lia.
         -- apply cfi_names_ok. exact Hcfisp.
+        -- apply csp_cfi_valid.
+        -- rewrite prev_instr_snoc. reflexivity.
     + (* found by scanning *)
       cbv zeta in Htech. destruct Htech as [Hlo [Hwin [Hz Hok]]].
       set (lo := if is_context (f_trust callee) then 0 else scan_skip_words a) in *.
@@ -357,7 +369,7 @@ Proof.
       (* the callee is not described by CFI *)
       assert (Ecfi : by_cfi a module_at max_module_addr cfi_walk callee gc = None).
       { unfold by_cfi. rewrite Hvsp. cbn [negb]. destruct (module_at (f_instr callee)); [|reflexivity].
-        rewrite (Hagree callee gc _ Hfp Hlr). unfold mix_cfi_correct. rewrite Elook. reflexivity. }
+        rewrite (Hagree done f t callee gc _ Hall Hrs). unfold mix_cfi_correct. rewrite Elook. reflexivity. }
       (* the record, seen after skipping [lo] words *)
       set (skipped := firstn (Z.to_nat lo) (ms_fill f)).
       set (g := (length (ms_fill f) - Z.to_nat lo)%nat).
@@ -409,9 +421,11 @@ Proof.
       * cbn [obind mix_chain set_instr from_context f_valid f_regs r_gp]. rewrite Etech. reflexivity.
       * reflexivity.
       * reflexivity.
-      * unfold rstate. cbn [set_instr from_context f_regs f_valid r_sp r_fp r_lr]. repeat split.
+      * unfold rstate. cbn [set_instr from_context f_regs f_valid f_instr r_sp r_fp r_lr]. repeat split.
         -- unfold sp'. rewrite mix_total_app. cbn [mix_total]. lia.
         -- exact Hn_sp.
+        -- exact Hn_csp.
+        -- rewrite prev_instr_snoc. reflexivity.
 Qed.
 
 Lemma mix_recovers : forall fuel, (length all < fuel)%nat ->
@@ -436,7 +450,7 @@ Proof.
     rewrite (mix_chain_walk all [] (from_context {| r_ip := ip0; r_sp := base; r_fp := 0; r_lr := 0; r_gp := gp0 |} VAll TContext) None fuel).
     + reflexivity.
     + reflexivity.
-    + cbn. repeat split. rewrite Z.mul_0_r, Z.add_0_r. reflexivity.
+    + unfold rstate. cbn. repeat split. rewrite Z.mul_0_r, Z.add_0_r. reflexivity.
     + cbn. exact Hgall.
     + intros _. rewrite Eall. discriminate.
     + exact Hfuel.
@@ -447,7 +461,7 @@ End MixChain.
 Definition mix_arch (a : arch) (os : Z) : Prop :=
   arch_ok a /\ (0 <= scan_skip_words a /\ a_scan_skip a = a_pw a * scan_skip_words a) /\
   In (a_cfi_sp_name a) (alias_group a (a_sp_name a)) /\
-  reg_valid a (a_sp_name a) (plain_valid a) = true /\
+  reg_valid a (a_sp_name a) (plain_valid a) = true /\ reg_valid a (a_cfi_sp_name a) (plain_valid a) = true /\
   (a_fp a = FpArm -> (os =? OS_IOS) = false) /\ (a_fp a = FpArm64 -> a_canon_fp a 0 = false).
 
 Lemma mix_arch_x86 : forall os, mix_arch x86 os.
@@ -466,6 +480,27 @@ Proof. intros os. split; [exact arch_ok_mips32|]. repeat split; try reflexivity;
 Lemma mix_arch_mips64 : forall os, mix_arch mips64 os.
 Proof. intros os. split; [exact arch_ok_mips64|]. repeat split; try reflexivity; try discriminate. cbn; auto. Qed.
 
+(* the frames a walk over [fs] reaches: the callee of the record after [done] *)
+Definition reached (a : arch) (base ip0 : Z) (callee : frame) (done : list mspec) : Prop :=
+  r_sp (f_regs callee) = base + a_pw a * mix_total done /\ r_fp (f_regs callee) = 0 /\ r_lr (f_regs callee) = 0 /\
+  reg_valid a (a_sp_name a) (f_valid callee) = true /\ reg_valid a (a_cfi_sp_name a) (f_valid callee) = true /\
+  f_instr callee = prev_instr a ip0 done.
+
+Theorem mix_recovers_reached :
+  forall p a os module_at max_module_addr instr_valid base fs ip0 gp0 fuel cfi_walk,
+    mix_arch a os ->
+    (forall done f t callee gc fwd, fs = done ++ f :: t -> reached a base ip0 callee done ->
+                                    cfi_walk callee gc fwd = mix_cfi_correct a base fs callee gc fwd) ->
+    mix_wf_layout a instr_valid module_at base ip0 fs = true ->
+    (length fs < fuel)%nat ->
+    let '(r, v, mem) := mix_layout a base ip0 gp0 fs in
+    walk_stack current_code p a os mem module_at max_module_addr cfi_walk instr_valid fuel r v
+    = Ret (from_context r v TContext :: mix_chain a v gp0 base 0 fs).
+Proof.
+  intros p a os ma mm iv base fs ip0 gp0 fuel cw [Ha [Hs [Hc [Hn [Hn2 [H1 H2]]]]]] Hag Hwf Hf.
+  exact (mix_recovers p a os ma mm cw iv base fs ip0 gp0 Ha Hs Hc Hn Hn2 H1 H2 Hwf Hag fuel Hf).
+Qed.
+
 Theorem mix_recovers_gen :
   forall p a os module_at max_module_addr instr_valid base fs ip0 gp0 fuel cfi_walk,
     mix_arch a os ->
@@ -477,8 +512,9 @@ Theorem mix_recovers_gen :
     walk_stack current_code p a os mem module_at max_module_addr cfi_walk instr_valid fuel r v
     = Ret (from_context r v TContext :: mix_chain a v gp0 base 0 fs).
 Proof.
-  intros p a os ma mm iv base fs ip0 gp0 fuel cw [Ha [Hs [Hc [Hn [H1 H2]]]]] Hag Hwf Hf.
-  exact (mix_recovers p a os ma mm cw iv base fs ip0 gp0 Ha Hs Hc Hn H1 H2 Hag Hwf fuel Hf).
+  intros p a os ma mm iv base fs ip0 gp0 fuel cw Hm Hag Hwf Hf.
+  apply mix_recovers_reached; auto.
+  intros done f t callee gc fwd _ [_ [Hfp [Hlr _]]]. apply Hag; assumption.
 Qed.
 
 (* the chain, read off column by column: lookup address (module attribution is the module lookup of this address),
